@@ -354,8 +354,10 @@ def _body(ctx, case):
     _model_ok(ctx, Mr, shape, R, "recorded-")
     ir = H.as_int(outr["iters"]) if isinstance(outr, dict) and "iters" in outr else None
     ctx.check(ir == iters, "recorded-run-same-iteration-count", (ir, iters))
-    # 'nvecs' recomputes the guess; ARPACK's internal random start perturbs it by eps/eigen-gap -> looser comparison
-    ctx.check(H.sq(ref.den(Mr) - Dm) <= (1e-10 if case["init"] == "nvecs" else 1e-18) * S, "recorded-run-same-model")
+    # 'nvecs' recomputes the guess; with R < n - 1 it comes from ARPACK, whose unseedable random start perturbs it by
+    # eps / eigen-gap -> looser comparison for that class only
+    arpack_guess = case["init"] == "nvecs" and any(R < n - 1 for n in shape)
+    ctx.check(H.sq(ref.den(Mr) - Dm) <= (1e-8 if arpack_guess else 1e-18) * S, "recorded-run-same-model")
     ns = [n for n, _ in rec.calls]
     ctx.require(ns == seq * (ir + 1 if ir is not None else 0), "mode-update-sequence",
                 f"requested modes {ns[:12]}... expected {seq} x {ir + 1 if ir is not None else '?'}")
@@ -409,23 +411,23 @@ def printed_delta_ok(printed, value):
 # --------------------------------------------------------------------------
 
 
-@cell("C09/cp_als/tensor", strategy=_case_strategy("tensor"), quick=600, thorough=6000, shards=(4, 16))
+@cell("C09/cp_als/tensor", strategy=_case_strategy("tensor"), quick=1500, thorough=24000, shards=(4, 16))
 def cp_als_tensor(ctx, case):
     _body(ctx, case)
 
 
-@cell("C09/cp_als/sptensor", strategy=_case_strategy("sptensor"), quick=400, thorough=3000, shards=(4, 16))
+@cell("C09/cp_als/sptensor", strategy=_case_strategy("sptensor"), quick=1000, thorough=12000, shards=(4, 16))
 def cp_als_sptensor(ctx, case):
     ctx.label(f"density-{case['density']}", "stored-" + case["stored"])
     _body(ctx, case)
 
 
-@cell("C09/cp_als/ttensor", strategy=_case_strategy("ttensor"), quick=400, thorough=3500, shards=(4, 16))
+@cell("C09/cp_als/ttensor", strategy=_case_strategy("ttensor"), quick=1000, thorough=14000, shards=(4, 16))
 def cp_als_ttensor(ctx, case):
     _body(ctx, case)
 
 
-@cell("C09/cp_als/sumtensor", strategy=_case_strategy("sumtensor"), quick=400, thorough=3500, shards=(4, 16))
+@cell("C09/cp_als/sumtensor", strategy=_case_strategy("sumtensor"), quick=1000, thorough=14000, shards=(4, 16))
 def cp_als_sumtensor(ctx, case):
     ctx.label("three-parts" if case.get("sum_sparse") else "two-parts")
     _body(ctx, case)
